@@ -23,6 +23,9 @@ Oracle (independent of the model, on what the implementation did):
     lies more than 1/10 pixel inside the traversed rectangles is processed;
   * every process call hands over exactly the members of one meta tile that need work (all with an empty cache, the
     uncached ones with a partly filled cache, [main tile] with refresh_all), in tile_list order; no call when none does;
+  * the mapproxy-seed command (SeedScript via sys.argv): without --continue a leftover progress file is ignored, with
+    --continue the union covers everything; configured level ranges (from/to, also 0) select exactly the chosen levels;
+  * an interruption right after any write of the progress file that is not a progress report;
   * interrupted with real worker processes (real seed_task / TileWorkerPool / TileSeedWorker): every list handed over
     before the interrupt is worked off before seed_task returns (oracle only);
   * configured tasks (several grids per cache) only hand over tiles touching the point-wise transformed coverage;
@@ -227,7 +230,13 @@ class RecPool(object):
         self.run.tick()
         self.run.events.append(('proc', tuple(tuple(t) for t in tiles)))
         if self.progress_logger:
+            store = getattr(self.progress_logger, 'progress_store', None)
+            before = store.writes if store is not None else 0
             self.progress_logger.log_step(progress)
+            if store is not None and store.writes > before:
+                # the progress file was written outside a progress report: an interruption right here is a crash point
+                # of its own (the model has no such write; the resume oracle decides whether what was written is safe)
+                self.run.step_writes.append(len(self.run.events))
 
 
 class Run(object):
@@ -247,6 +256,7 @@ class Run(object):
         self.tree = None
         self.record_tree = record_tree
         self.record_cov = record_cov
+        self.step_writes = []
 
     def tick(self):
         if self.crash_at is not None and len(self.events) >= self.crash_at:
@@ -1121,9 +1131,16 @@ class TaskCheck(object):
             while len(idxs) < min(k_chains, n + 1):
                 idxs.add(rng.choice(pref) if (pref and rng.random() < 0.6) else rng.choice(cands))
         out = []
-        for k in sorted(idxs):
+        # interruptions right after a write of the progress file that did not come from a report (same schedule as U)
+        targeted = [k for k in (U.step_writes[:2] + U.step_writes[-3:]) if k not in idxs]
+        targeted = sorted(set(targeted))
+        if U.step_writes:
+            ctx.count('progress_writes_outside_reports', len(U.step_writes))
+        for k in sorted(idxs) + targeted:
             fn = self.fresh_file()
             p = rng.choice([1.0, 0.6, 0.3, 0.1])
+            if k in targeted:
+                p = 1.0
             mask_rng_state = rng.getrandbits(64)
             import random as _r
             mr = _r.Random(mask_rng_state)
@@ -1602,13 +1619,26 @@ def conf_stream(ctx):
         # several caches in one seed: one task per cache (and grid, and level for rescaling caches), each with its own
         # progress entry
         caches = rng.choice(['[c, c2]', '[c, c2, c3]', '[c]']) if (i % 3 == 1 or rng.random() < 0.4) else '[c]'
-        seeds = '  s1:\n    caches: %s\n    coverages: [cov]\n    levels: %r\n' % (caches, levels)
+        # the levels of the seed: a list, or a range with from / to (either may be missing or 0)
+        lv_yaml, lv_conf = repr(levels), {'list': levels}
+        if rng.random() < 0.5 or i % 4 == 2:
+            a = rng.choice([None, 0, 0, 1, 2])
+            b = rng.choice([0, 0, 1, 2, 3, None]) if a in (None, 0) else rng.choice([a, a + 1, None])
+            if multi and b is None:
+                b = 2
+            if (not multi) and gridname.startswith('GLOBAL') and b is None:
+                b = rng.choice([0, 1, 2])
+            if a is None and b is None:
+                b = 0
+            parts = ([] if a is None else ['from: %d' % a]) + ([] if b is None else ['to: %d' % b])
+            lv_yaml, lv_conf = '{%s}' % ', '.join(parts), {'from': a, 'to': b}
+        seeds = '  s1:\n    caches: %s\n    coverages: [cov]\n    levels: %s\n' % (caches, lv_yaml)
         if two:
             seeds += '  s2:\n    caches: [c]\n    coverages: [cov]\n    levels: %r\n' % (levels[:2],)
         if not multi:
             gridname = '[%s]' % gridname
         conf_desc = {'grid': gridname, 'rescale': rescale.strip(), 'levels': levels, 'coverage': bbox, 'coverage_srs': srs,
-                     'seeds': 2 if two else 1, 'caches': caches}
+                     'seeds': 2 if two else 1, 'caches': caches, 'levels_conf': lv_conf}
         base = ctx.tmpdir('c11conf')
         mp, sdf = os.path.join(base, 'mapproxy.yaml'), os.path.join(base, 'seed.yaml')
         msx, msy = rng.choice([(2, 2), (1, 1), (3, 2)])
@@ -1680,6 +1710,26 @@ def conf_check(ctx, tasks, desc, base, rng):
     desc = dict(desc, tasks=[[t.md['name'], t.md['cache_name'], t.md['grid_name'], list(t.levels)] for t in tasks])
     ctx.count('conf_tasks_per_run=%d' % len(tasks))
     ctx.count('conf_rescale=%s' % (desc['rescale'] or 'none'))
+    # the chosen levels: exactly what the seed configuration says (a range is cut at the last level of the grid)
+    lc = desc.get('levels_conf')
+    if lc:
+        for t in tasks:
+            if t.md['name'] != 's1':
+                continue
+            nlev = t.grid.levels
+            if 'list' in lc:
+                want_l = sorted(set(l for l in lc['list'] if 0 <= l < nlev))
+            else:
+                lo = 0 if lc['from'] is None else lc['from']
+                hi = nlev - 1 if lc['to'] is None else min(lc['to'], nlev - 1)
+                want_l = list(range(lo, hi + 1))
+            same = [u for u in tasks if u.md['name'] == 's1' and u.md['cache_name'] == t.md['cache_name'] and u.md['grid_name'] == t.md['grid_name']]
+            got_l = sorted(set(l for u in same for l in u.levels))
+            if got_l != want_l:
+                ctx.fail('config-levels-wrong',
+                         'seed with levels %r on a grid with %d levels: the task(s) for cache %s / grid %s seed the levels %r, chosen are %r'
+                         % (lc, nlev, t.md['cache_name'], t.md['grid_name'], got_l, want_l), {'conf': desc})
+                break
     ids = [t.id for t in tasks]
     if len(set(ids)) != len(ids):
         ctx.fail('task-ids-collide', 'the %d seed tasks of one configuration have only %d different ids %r: they share progress entries'
@@ -1729,6 +1779,121 @@ def conf_check(ctx, tasks, desc, base, rng):
         ks = sorted(rng.randrange(0, n + 1) for _ in range(rng.choice([1, 1, 2])))
         if not chain(ks, rng.choice([1.0, 0.5, 0.2])):
             return
+
+
+SCRIPT_SEED = """
+seeds:
+  s1:
+    caches: %(caches)s
+    coverages: [cov]
+    levels: %(levels)s
+coverages:
+  cov:
+    bbox: %(bbox)r
+    srs: 'EPSG:4326'
+"""
+
+
+def script_cases(ctx):
+    """The command itself: mapproxy.seed.script.SeedScript driven through sys.argv (real option handling, real
+    ProgressStore / ProgressLog, recording pool).  A run WITHOUT --continue starts from scratch whatever progress file an
+    earlier interrupted run left behind; with --continue the union covers the uninterrupted run."""
+    import contextlib
+    import sys as _sys
+    import mapproxy.seed.util as su
+    import mapproxy.seed.seeder as sd
+    from mapproxy.seed.script import SeedScript
+    rng = ctx.rng
+
+    class Clock(object):
+        now = 1000.0
+
+        def time(self):
+            Clock.now += 100.0          # every progress report is far enough from the last one to be persisted
+            return Clock.now
+
+    for _ in range(ctx.n(1, 4)):
+        base = ctx.tmpdir('c11script')
+        mp, sdf, pf = os.path.join(base, 'mapproxy.yaml'), os.path.join(base, 'seed.yaml'), os.path.join(base, 'progress')
+        rescale = rng.choice(['    upscale_tiles: 1', '    downscale_tiles: 1', ''])
+        caches = '[c, c2]' if not rescale else rng.choice(['[c]', '[c, c2]'])
+        levels = rng.choice(['[0, 1, 2]', '{to: 2}', '[1, 2]', '{from: 1, to: 3}'])
+        x, y = rng.uniform(-170, 60), rng.uniform(-75, 20)
+        bbox = [x, y, x + rng.uniform(30, 110), y + rng.uniform(20, 55)]
+        with open(mp, 'w') as f:
+            f.write(CONF_MAPPROXY % {'grid': '[GLOBAL_GEODETIC]', 'msx': 2, 'msy': 2, 'rescale': rescale, 'base': base, 'mbuf': 0})
+        with open(sdf, 'w') as f:
+            f.write(SCRIPT_SEED % {'caches': caches, 'levels': levels, 'bbox': bbox})
+        desc = {'rescale': rescale.strip(), 'caches': caches, 'levels': levels, 'coverage': bbox}
+
+        def run(extra, crash_at):
+            """returns (set of (task key, tile), outcome, number of process calls)"""
+            got, calls = set(), [0]
+
+            class Pool(object):
+                def __init__(self, task, worker_class, size=2, dry_run=False, progress_logger=None):
+                    self.key = (task.md['name'], task.md['cache_name'], task.md['grid_name'], tuple(task.levels))
+                    self.progress_logger = progress_logger
+
+                def process(self, tiles, progress):
+                    if crash_at is not None and calls[0] >= crash_at:
+                        raise Crash()
+                    calls[0] += 1
+                    for t in tiles:
+                        got.add((self.key, tuple(t)))
+                    if self.progress_logger:
+                        self.progress_logger.log_step(progress)
+
+                def stop(self, force=False):
+                    pass
+            saved = (su.time, sd.TileWorkerPool, _sys.argv)
+            su.time, sd.TileWorkerPool = Clock(), Pool
+            _sys.argv = ['mapproxy-seed', '-f', mp, '-s', sdf, '-c', '1'] + extra
+            outcome = 'returned'
+            try:
+                with contextlib.redirect_stdout(io.StringIO()):
+                    rc = SeedScript()()
+                    outcome = 'returned %r' % (rc,)
+            except Crash:
+                outcome = 'crashed'
+            except SystemExit as e:
+                outcome = 'exit %r' % (e.code,)
+            except Exception as e:  # noqa
+                outcome = 'raised %r' % (e,)
+            finally:
+                su.time, sd.TileWorkerPool, _sys.argv = saved
+            return got, outcome, calls[0]
+
+        want, outcome, ncalls = run([], None)
+        ctx.case(('script', json.dumps(desc, sort_keys=True)), True, {'script_conf': desc, 'process_calls': ncalls, 'tiles': len(want)})
+        ctx.count('script_runs')
+        if not outcome.startswith('returned') or not want:
+            ctx.fail('script-run-fails', 'mapproxy-seed -f mapproxy.yaml -s seed.yaml: %s, %d tiles' % (outcome, len(want)), {'conf': desc})
+            continue
+        k = rng.randrange(max(1, ncalls // 2), ncalls)         # interrupted in a later task
+        first, o1, _n = run(['--progress-file', pf], k)
+        if o1 != 'crashed':
+            ctx.problem('harness', 'script case: the interrupted run ended with %s' % o1, desc)
+            continue
+        leftover = os.path.exists(pf)
+        # (a) the same command again WITHOUT --continue: a fresh start, everything is handed over again
+        fresh, o2, _n = run(['--progress-file', pf], None)
+        missing = want - fresh
+        if missing or not o2.startswith('returned'):
+            ctx.fail('run-without-continue-uses-old-progress',
+                     'mapproxy-seed --progress-file F (no --continue) after an interrupted run (progress file left behind: %s): %s, '
+                     '%d of the %d selected tiles were never handed over, e.g. %r' % (leftover, o2, len(missing), len(want), sorted(missing)[:2]),
+                     {'conf': desc, 'interrupted_after_calls': k, 'missing': sorted(missing)[:8]})
+            continue
+        # (b) interrupted again, then continued with --continue: the union covers everything
+        first, o1, _n = run(['--progress-file', pf], k)
+        cont, o3, _n = run(['--progress-file', pf, '--continue'], None)
+        missing = want - (first | cont)
+        if missing or not o3.startswith('returned'):
+            ctx.fail('config-run-loses-tiles',
+                     'mapproxy-seed --progress-file F interrupted after %d process calls, then --continue: %s, %d of the %d selected '
+                     'tiles were never handed over, e.g. %r' % (k, o3, len(missing), len(want), sorted(missing)[:2]),
+                     {'conf': desc, 'interrupted_after_calls': k, 'missing': sorted(missing)[:8]})
 
 
 def drain_cases(ctx):
@@ -1827,6 +1992,11 @@ def run(ctx):
     except Exception as e:  # noqa
         ctx.problem('harness', 'pool oracle raised %r' % (e,))
     conf_stream(ctx)
+    try:
+        script_cases(ctx)
+    except Exception as e:  # noqa
+        import traceback
+        ctx.problem('harness', 'script case raised %r' % (e,), traceback.format_exc()[-1200:])
     try:
         drain_cases(ctx)
     except Exception as e:  # noqa
